@@ -55,6 +55,13 @@ pe, metric_name and its stored arguments) works, is bit-identical to a fresh obj
 put into that configuration through valid calls (B-relations evaluated on a
 difference); an object that reports a metric must not make a run raise; the next
 VALID configuration restores exactly the behaviour of a fresh object.
+Scaled histories (pairwise: global scale x what happens between two runs on ONE object): at
+every scale 1e-12, 1e-9, 1e-6, 1e6, 1e12 (noise x scale^2), for every class / entry point /
+metric: run, {other member of the same shape and scale in place | nothing | scaled copy x2 |
+run on the other layout | refresh + iPu change}, run -- judged like every history.
+Zero external interference (pairwise: ext-int level x metric): pe in {0 (int), 0.0, 1e-12, 1}
+and an ext_int_pathloss that is exactly 0 for ONE user (first / last), x every metric x
+rank x layout; all B relations with the per-user interference rank.
 Scale families (A and B): every coefficient x c, c in {1e-12,1e-9,1e-6,1e6}, with
 noise x c^2 (and pe x c^2 where only the users' channel is scaled) and one
 independently scaled noise; every tolerance is relative to the scale of the case.
@@ -89,7 +96,9 @@ RULE = ("A: (K,n) in {2,3}x{1,2,3} x {generic G_s, weak user, weak antenna, kapp
         "bit-identical after every checked call; repeated call identical. Scale families: A and B with all "
         "coefficients x{1e-12,1e-9,1e-6,1e6}, noise (pe) x c^2 and one independent noise. L: every ordered "
         "pair (and triple) of differently configured LIVE objects of one class x 3 construction/configuration "
-        "orders x 2 run orders, every run bit-identical to one fresh object. E: every invalid call x every "
+        "orders x 2 run orders, every run bit-identical to one fresh object. Scaled histories: run / {other member, same, x2 copy, other layout, "
+        "refresh+iPu} / run at scales {1e-12,1e-9,1e-6,1e6,1e12} for every class, entry point and metric. Zero "
+        "ext-int: pe {0,0.0,1e-12,1} and ext_int_pathloss 0 for one user x every metric. E: every invalid call x every "
         "configuration: outcome recorded; afterwards the object is coherent with the configuration it reports "
         "and a valid re-configuration restores fresh behaviour")
 
@@ -334,13 +343,27 @@ def variants(n):
     yield ("whitening", None, None)
 
 
-def make_ext_channel(Hfull, K, n, r, noise):
+def make_ext_channel(Hfull, K, n, r, noise, ext_pl=None):
     from pyphysim.channels import multiuser
     mc = multiuser.MultiUserChannelMatrixExtInt()
     mc.init_from_channel_matrix(Hfull.copy(), np.full(K, n), np.full(K, n), K, r)
     if noise is not None:
         mc.noise_var = noise
+    if ext_pl is not None:
+        # unit path loss between the users, `ext_pl[k]` from the interference source to receiver k
+        mc.set_pathloss(np.ones((K, K)), np.array(ext_pl, dtype=float).reshape(K, 1))
     return mc
+
+
+def effective_channel(Hfull, K, n, ext_pl):
+    """the literal channel the property speaks about: path loss is a power relation, the
+    external-interference columns of receiver k are multiplied by sqrt(ext_pl[k])"""
+    if ext_pl is None:
+        return Hfull
+    Heff = np.array(Hfull, dtype=complex)
+    for k in range(K):
+        Heff[k * n:(k + 1) * n, K * n:] *= math.sqrt(float(ext_pl[k]))
+    return Heff
 
 
 def apply_metric(obj, metric, ns):
@@ -353,15 +376,12 @@ def apply_metric(obj, metric, ns):
         obj.set_ext_int_handling_metric(metric)
 
 
-def run_variant(Hfull, K, n, r, noise, pe, iPu, variant, chk=None, case=None):
+def run_variant(Hfull, K, n, r, noise, pe, iPu, variant, chk=None, case=None, ext_pl=None):
     """fresh channel + fresh BD object; returns (Ms_all, W_all, Ns_all)"""
-    from pyphysim.channels import multiuser
     from pyphysim.comm import blockdiagonalization as bdm
     from pyphysim.modulators import fundamental
-    mc = multiuser.MultiUserChannelMatrixExtInt()
-    mc.init_from_channel_matrix(Hfull.copy(), np.full(K, n), np.full(K, n), K, r)
-    if noise is not None:
-        mc.noise_var = noise
+    mc = make_ext_channel(Hfull, K, n, r, noise, ext_pl)
+    snapshot = np.array(mc.big_H)
     kind, metric, ns = variant
     nv = 0.0 if noise is None else noise
     if kind == "whitening":
@@ -377,7 +397,7 @@ def run_variant(Hfull, K, n, r, noise, pe, iPu, variant, chk=None, case=None):
             obj.set_ext_int_handling_metric(metric)
     res = obj.block_diagonalize_no_waterfilling(mc)
     if chk is not None:
-        check_channel_untouched(chk, mc, Hfull, K, n, noise, ("WhiteningBD" if kind == "whitening"
+        check_channel_untouched(chk, mc, snapshot, K, n, noise, ("WhiteningBD" if kind == "whitening"
                                                                else "EnhancedBD", str(metric)), case)
     return res
 
@@ -507,7 +527,7 @@ def check_ext(chk, Hfull, K, n, r, noise, pe, iPu, variant, res, case, tag=()):
                 chk.fail(name + ("receive_filter_not_inverse",), case, observed=e,
                          expected="<= %g" % (C_INV * EPS * max(kap, 1.0) * kapw * n))
         # B5
-        reff = min(n, r)
+        reff = min(n, r) if np.any(Rext[k]) else 0        # no interference reaches this user at all
         aware = (metric == "fixed") or (metric in ("capacity", "effective_throughput") and nsk < n)
         if aware and nsk <= n - reff:
             chk.count("eval_interference_removal")
@@ -542,7 +562,7 @@ def check_ext(chk, Hfull, K, n, r, noise, pe, iPu, variant, res, case, tag=()):
                              expected="metric per stream count %r" % (vals,))
 
 
-def eval_ext(chk, Hfull, K, n, r, noise, pe, iPu, variant, case):
+def eval_ext(chk, Hfull, K, n, r, noise, pe, iPu, variant, case, ext_pl=None):
     kind, metric, ns = variant
     name = ("WhiteningBD" if kind == "whitening" else "EnhancedBD", str(metric))
     # non-vacuity from the oracle side, before the library runs
@@ -551,8 +571,8 @@ def eval_ext(chk, Hfull, K, n, r, noise, pe, iPu, variant, case):
         chk.outcome("removal_required", (n, r, ns))
     with chk.guard(name, case):
         chk.count("eval_extint_bd")
-        res = run_variant(Hfull, K, n, r, noise, pe, iPu, variant, chk, case)
-        check_ext(chk, Hfull, K, n, r, noise, pe, iPu, variant, res, case)
+        res = run_variant(Hfull, K, n, r, noise, pe, iPu, variant, chk, case, ext_pl)
+        check_ext(chk, effective_channel(Hfull, K, n, ext_pl), K, n, r, noise, pe, iPu, variant, res, case)
     chk.nontriv(("B", K, n, case["family"], case["s"], r, noise, pe, iPu, kind, str(metric), ns))
 
 
@@ -628,7 +648,7 @@ def _copy_result(res):
     return [[np.array(u) for u in _parts(x)] for x in res]
 
 
-def run_history(chk, cls, init, seq, chans, case):
+def run_history(chk, cls, init, seq, chans, case, scale=1.0):
     """execute the history on ONE BD object, with ONE caller-owned channel buffer
     (BlockDiagonalizer) / ONE channel object (ext-int classes) per layout that is
     refreshed in place; check the LAST run: relations for the current configuration
@@ -636,7 +656,11 @@ def run_history(chk, cls, init, seq, chans, case):
     equal to a fresh object on fresh inputs, and a second call gives the same."""
     from pyphysim.comm import blockdiagonalization as bdm
     from vmc import bfs
+    # `chans` are already multiplied by `scale`; every noise variance scales with scale^2
+    # so that the scaled history is the same problem in other units
+    n2 = float(scale) * float(scale)
     cfg = dict(H_INIT, metric=None, ns=None)
+    cfg["noise_var"] = H_INIT["noise_var"] * n2
     K = 2
     if cls == "EnhancedBD":
         obj = bdm.EnhancedBD(K, cfg["iPu"], cfg["noise_var"], cfg["pe"])
@@ -646,6 +670,8 @@ def run_history(chk, cls, init, seq, chans, case):
         obj = bdm.BlockDiagonalizer(K, cfg["iPu"], cfg["noise_var"])
     plain = cls == "BlockDiagonalizer"
     member = {"A": 0, "B": 0}
+    factor = {"A": 1.0, "B": 1.0}
+    hch = {nm: (v[0], v[1], v[2], v[3] * n2) for nm, v in H_CHANNELS.items()}
     bufs = {}      # name -> the caller's ndarray, the SAME object for every call
     mcs = {}       # name -> the caller's channel object, the SAME object for every call
     res = None
@@ -653,13 +679,13 @@ def run_history(chk, cls, init, seq, chans, case):
     changed = set()
 
     def current(name):
-        Kc, n, r, cnoise = H_CHANNELS[name]
-        M = np.asarray(chans[name][member[name]])
+        Kc, n, r, cnoise = hch[name]
+        M = np.asarray(chans[name][member[name]]) * factor[name]
         return M[:, :Kc * n] if plain else M
 
     def call(ev):
         name = ev[1]
-        Kc, n, r, cnoise = H_CHANNELS[name]
+        Kc, n, r, cnoise = hch[name]
         if plain:
             if name not in bufs:
                 bufs[name] = np.array(current(name))
@@ -669,7 +695,7 @@ def run_history(chk, cls, init, seq, chans, case):
             mcs[name] = make_ext_channel(current(name), Kc, n, r, cnoise)
         return obj.block_diagonalize_no_waterfilling(mcs[name])
 
-    prev = (bfs.digest(bfs.state_of(obj)), 0, 0)
+    prev = (bfs.digest(bfs.state_of(obj)), 0, 0, 1.0, 1.0, scale)
     chk.outcome("history_states", (cls,) + prev)
     for ev in tuple(init) + tuple(seq):
         if ev[0] == "metric":
@@ -677,33 +703,37 @@ def run_history(chk, cls, init, seq, chans, case):
             cfg["metric"], cfg["ns"] = ev[1], ev[2]
             changed.add("metric")
         elif ev[0] in ("iPu", "noise_var", "pe"):
-            setattr(obj, ev[0], ev[1])
-            cfg[ev[0]] = ev[1]
+            val = ev[1] * n2 if ev[0] == "noise_var" else ev[1]
+            setattr(obj, ev[0], val)
+            cfg[ev[0]] = val
             changed.add(ev[0])
-        elif ev[0] == "refresh":
+        elif ev[0] in ("refresh", "rescale"):
             name = ev[1]
-            Kc, n, r, cnoise = H_CHANNELS[name]
-            member[name] = (member[name] + 1) % len(chans[name])
+            Kc, n, r, cnoise = hch[name]
+            if ev[0] == "refresh":      # another family member of the same shape and scale
+                member[name] = (member[name] + 1) % len(chans[name])
+            else:                       # a scaled copy (x2) of the same member
+                factor[name] *= 2.0
             if plain and name in bufs:
                 bufs[name][:] = current(name)                     # H[:] = new_H
             elif not plain and name in mcs:
                 mcs[name].init_from_channel_matrix(np.array(current(name)), np.full(Kc, n),
                                                    np.full(Kc, n), Kc, r)
                 mcs[name].noise_var = cnoise
-            changed.add("refresh_in_place")
+            changed.add("refresh_in_place" if ev[0] == "refresh" else "rescale_in_place")
         else:
             res = call(ev)
             last = (ev, tuple(sorted(changed)))
             changed = set()
         chk.count("eval_history_events")
-        cur = (bfs.digest(bfs.state_of(obj)), member["A"], member["B"])
+        cur = (bfs.digest(bfs.state_of(obj)), member["A"], member["B"], factor["A"], factor["B"], scale)
         chk.outcome("history_states", (cls,) + cur)
         chk.outcome("history_transitions", (cls,) + prev + (repr(ev),))
         prev = cur
     ev, since = last
     how = "after_" + ("+".join(since) if since else "rerun")
     name = ev[1]
-    Kc, n, r, cnoise = H_CHANNELS[name]
+    Kc, n, r, cnoise = hch[name]
     Hcur = np.array(current(name))
     chk.count("eval_history_runs_checked")
     saved = _copy_result(res)
@@ -744,14 +774,42 @@ def run_history(chk, cls, init, seq, chans, case):
         chk.fail((cls, "reused_object", "second_call_same_objects_differs", how), case,
                  observed="result of the repeated call (or the first result object) changed",
                  expected="bit-identical results")
-    chk.nontriv(("H", cls, tuple(init), tuple(seq)))
+    chk.nontriv(("H", cls, tuple(init), tuple(seq), scale))
 
 
-def eval_history(chk, cls, init, seq, chans):
+def eval_history(chk, cls, init, seq, chans, scale=1.0):
+    """`chans` unscaled; the history runs on chans*scale with every noise x scale^2"""
+    sch = chans if scale == 1.0 else {nm: [np.asarray(M) * scale for M in chans[nm]] for nm in chans}
     case = {"part": "H", "cls": cls, "init": [list(e) for e in init], "history": [list(e) for e in seq],
-            "HA": chans["A"], "HB": chans["B"]}
+            "HA": chans["A"], "HB": chans["B"], "scale": scale}
+    if scale != 1.0:
+        chk.outcome("history_x_scale", (cls, scale, tuple(e[0] for e in seq)))
     with chk.guard((cls, "reused_object"), case):
-        run_history(chk, cls, init, seq, chans, case)
+        run_history(chk, cls, init, seq, sch, case, scale)
+
+
+H_SCALES = (1e-12, 1e-9, 1e-6, 1e6, 1e12)
+
+
+def scaled_hist_sequences(tier):
+    """pairwise covering of {global channel scale} x {what happens between two runs on ONE object}:
+    another member of the same shape and scale, the same member again, a scaled copy, another
+    layout in between, a configuration change -- for every class / entry point / metric"""
+    for cls in ("EnhancedBD", "WhiteningBD", "BlockDiagonalizer"):
+        runs = ([("run_wf",), ("run_nowf",)] if cls == "BlockDiagonalizer" else [("run",)])
+        inits = [(("metric", m, ns),) for m, ns in H_METRICS] if cls == "EnhancedBD" else [()]
+        for scale in H_SCALES:
+            for init in inits:
+                for (rk,) in runs:
+                    for nm, other in (("A", "B"), ("B", "A")):
+                        between = [(("refresh", nm),), (), (("rescale", nm),), ((rk, other),),
+                                   (("refresh", nm), ("iPu", 2.5))]
+                        if tier == "thorough":
+                            between += [(("refresh", nm), ("refresh", nm)), (("pe", 10.0), ("refresh", nm))]
+                        for mid in between:
+                            if cls == "BlockDiagonalizer" and any(e[0] == "pe" for e in mid):
+                                continue
+                            yield cls, init, ((rk, nm),) + tuple(mid) + ((rk, nm),), scale
 
 
 # ----------------------------------------------------------------------
@@ -1087,6 +1145,27 @@ def jobs_b_scaled(tier):
                             yield ("B", K, n, "generic_x%g" % c, s, Hfull, r, noise, pe, 1.0)
 
 
+ZERO_PES = (0, 0.0, 1e-12, 1.0)
+
+
+def jobs_b_zero_extint(tier):
+    """pairwise covering of {external interference exactly zero / tiny / ordinary} x {every metric}:
+    pe = 0 (int and float), 1e-12, 1; and an ext-int path loss that is exactly 0 for ONE user"""
+    lay = LAYOUTS if tier == "thorough" else ((2, 2), (2, 3), (3, 2), (3, 3))
+    for K, n in lay:
+        H = families.generic(40, (K * n, K * n), True, tag=9)
+        for r in (1, 2):
+            Hfull = np.hstack([H, ext_channel(K, n, r, 40)])
+            for noise in ((0.1, 1e-3) if tier == "thorough" else (0.1,)):
+                for pe in ZERO_PES:
+                    yield ("Bz", K, n, "generic", 40, Hfull, r, noise, pe, 0.8, None)
+                for u in (0, K - 1):
+                    pl = [0.5] * K
+                    pl[u] = 0.0
+                    for pe in (1.0, 1e-12):
+                        yield ("Bz", K, n, "generic", 40, Hfull, r, noise, pe, 0.8, pl)
+
+
 def jobs_b(tier):
     for K, n in LAYOUTS:
         for fam, s, H in channel_members(K, n, tier, "B"):
@@ -1105,6 +1184,11 @@ def run_job(chk, job):
         with chk.guard(("BlockDiagonalizer",), case):
             eval_plain(chk, H, K, n, iPu, noise, case)
     else:
+        ext_pl = None
+        if job[0] == "Bz":
+            ext_pl = job[10]
+            job = job[:10]
+            chk.outcome("extint_level_x_metric", (repr(job[8]), None if ext_pl is None else ext_pl.index(0.0)))
         _, K, n, fam, s, Hfull, r, noise, pe, iPu = job
         for variant in variants(n):
             if variant[0] == "whitening" and noise is None:
@@ -1112,7 +1196,11 @@ def run_job(chk, job):
                 continue
             case = {"part": "B", "K": K, "n": n, "family": fam, "s": s, "rank": r, "noise": noise,
                     "pe": pe, "iPu": iPu, "variant": list(variant), "H": Hfull}
-            eval_ext(chk, Hfull, K, n, r, noise, pe, iPu, variant, case)
+            if ext_pl is not None:
+                case["ext_pl"] = list(ext_pl)
+            if job[0] == "Bz":
+                chk.outcome("zero_extint_x_metric", (str(variant[1]), pe == 0, ext_pl is not None))
+            eval_ext(chk, Hfull, K, n, r, noise, pe, iPu, variant, case, ext_pl)
 
 
 def main(chk):
@@ -1125,6 +1213,16 @@ def main(chk):
                "re-evaluate the effective-throughput metric; WhiteningBD only with noise > 0 "
                "(singular covariance otherwise)")
     chk.extra["kappa_max"] = KAPPA_MAX
+    chk.extra["pairwise_axes"] = {
+        "global_channel_scale": [1e-12, 1e-9, 1e-6, 1.0, 1e6, 1e12],
+        "between_two_runs_on_one_object": ["other member same shape+scale (in place)", "same member again",
+                                           "scaled copy (x2, in place)", "other layout", "refresh + iPu change"],
+        "class_entry_point_metric": ["BlockDiagonalizer wf/no-wf", "WhiteningBD", "EnhancedBD x 7 metrics"],
+        "external_interference_level": ["pe=0 (int)", "pe=0.0", "pe=1e-12", "pe=1", "ext_int_pathloss 0 for one user"],
+        "metric": ["None", "naive/ns", "fixed/ns", "capacity", "effective_throughput", "whitening"],
+        "covered_pairs": ["scale x between-runs x class/metric (Part H scaled histories)",
+                          "ext-int level x metric x layout x rank (Part B zero family)",
+                          "scale x family x iPu/noise (Part A/B scale families)"]}
 
     def worker(i, nsh, c):
         for job in shard(jobs_a(c.tier), i, nsh):
@@ -1140,6 +1238,10 @@ def main(chk):
         chans = hist_channels()
         for cls, init, seq in shard(hist_sequences(c.tier), i, nsh):
             eval_history(c, cls, init, seq, chans)
+        for cls, init, seq, scale in shard(scaled_hist_sequences(c.tier), i, nsh):
+            eval_history(c, cls, init, seq, chans, scale)
+        for job in shard(jobs_b_zero_extint(c.tier), i, nsh):
+            run_job(c, job)
         for cls, cis, setup, runs, name in shard(live_scenarios(c.tier), i, nsh):
             eval_live(c, cls, cis, setup, runs, name, chans)
         for cls, ci, k in shard(error_cases(), i, nsh):
@@ -1167,6 +1269,8 @@ def main(chk):
     chk.require_outcomes("metric_x_rank", 12)
     chk.require_outcomes("removal_required", 3)
     chk.require_outcomes("history_states", 20)
+    chk.require_outcomes("history_x_scale", 30)
+    chk.require_outcomes("zero_extint_x_metric", 12)
     chk.require_outcomes("invalid_call", 8)
 
 
@@ -1178,7 +1282,7 @@ def replay(case, chk):
         def ev(e):
             return tuple(e)
         eval_history(chk, case["cls"], tuple(ev(e) for e in case["init"]),
-                     tuple(ev(e) for e in case["history"]), chans)
+                     tuple(ev(e) for e in case["history"]), chans, float(case.get("scale", 1.0)))
         return
     if case["part"] in ("L", "E"):
         chans = {"A": np.asarray(case["HA"], dtype=complex), "B": np.asarray(case["HB"], dtype=complex)}
@@ -1198,5 +1302,6 @@ def replay(case, chk):
         v = case["variant"]
         variant = (v[0], v[1], None if v[2] is None else int(v[2]))
         noise = None if case["noise"] is None else float(case["noise"])
-        eval_ext(chk, H, K, n, int(case["rank"]), noise, float(case["pe"]), float(case["iPu"]),
-                 variant, case)
+        pe = case["pe"] if isinstance(case["pe"], int) else float(case["pe"])      # pe = 0 as int stays int
+        eval_ext(chk, H, K, n, int(case["rank"]), noise, pe, float(case["iPu"]),
+                 variant, case, case.get("ext_pl"))
